@@ -2009,6 +2009,19 @@ def q_c06_txn_glue(bodies):
                         problems.append(("%s never commits after the caller's closure ran" % label, "sat"))
                 if label != "tables" and ret.startswith("(C_Ok ") and len(fi) != 1:
                     problems.append(("%s runs the caller's closure exactly once on its success path" % label, "sat"))
+                # what the access leaves in the store's transaction slot: a write transaction — the one that was open, unless it
+                # was committed behind the age test — never nothing (dropping an open write transaction discards the writes
+                # made through it, which earlier operations already acknowledged)
+                gw = [w for w in env.get("__writes", []) if w[0] == "deref-write"]
+                if gw:
+                    last = gw[-1][2]
+                    if not last.startswith("(mk_CurrentTransaction__Write "):
+                        problems.append(("%s leaves the open write transaction in place whatever the caller's closure returns (acknowledged writes of earlier operations live in it)" % label, "sat"))
+                    elif not ci:
+                        nq += 1
+                        v, _ = solve(smt.script("(and true %s %s (not (= %s (mk_CurrentTransaction__Write (fld_0 (as_Write TAKEN))))))" % (" ".join(pc), is_write, last)))
+                        if v != "unsat":
+                            problems.append(("%s keeps using the write transaction that was open (it is replaced only after a commit)" % label, v))
         # the read-side accesses end an open write transaction with the same durable commit
         for mname in ("snapshot", "snapshot_owned"):
             b = _c06_store_method(bodies, mname)
@@ -2038,7 +2051,7 @@ def q_c06_txn_glue(bodies):
     if any(p[1] != "inconclusive" for p in problems):
         verdict = "violated"
     return dict(name=name, property="C06", verdict=verdict, detail="paths=%d; age-commit possible in: %s; problems: %s" % (ncases, may_commit, problems or "none"),
-                functions=funcs, queries=nq, cases=ncases, witness="c06",
+                functions=funcs, queries=nq, cases=ncases, witness="c06,c06err",
                 check_message=(problems[0][0] if problems else "flush commits; one store access is never split by a commit"))
 
 
@@ -2836,3 +2849,38 @@ QUERIES["C10"] = QUERIES.get("C10", []) + QUERIES_C10
 # ------------------------------------------------------------------------------------------------
 from queries_pm import QUERIES_PM  # noqa: E402
 QUERIES["C01"] = QUERIES.get("C01", []) + QUERIES_PM + QUERIES_C08   # C01's anchors name the redb-backed range scan and fingerprint
+
+
+# ------------------------------------------------------------------------------------------------
+# C16: content hashes for garbage-collection protection; the open-document guard
+# ------------------------------------------------------------------------------------------------
+from queries_c16 import QUERIES_C16  # noqa: E402
+QUERIES["C16"] = QUERIES.get("C16", []) + QUERIES_C16
+
+
+# ------------------------------------------------------------------------------------------------
+# C12: Subscribers (send / send_with / subscribe / unsubscribe), executed
+# ------------------------------------------------------------------------------------------------
+from queries_c12 import QUERIES_C12  # noqa: E402
+QUERIES["C12"] = QUERIES.get("C12", []) + QUERIES_C12
+
+
+# ------------------------------------------------------------------------------------------------
+# C14: the open / sync gates of every handler of the store actor; Actor::close
+# ------------------------------------------------------------------------------------------------
+from queries_c14 import QUERIES_C14  # noqa: E402
+QUERIES["C14"] = QUERIES.get("C14", []) + QUERIES_C14
+
+
+# ------------------------------------------------------------------------------------------------
+# C02 / C08: remove_prefix_filtered over the records table
+# ------------------------------------------------------------------------------------------------
+from queries_c02 import QUERIES_C02  # noqa: E402
+for _p in ("C02", "C08"):
+    QUERIES[_p] = QUERIES.get(_p, []) + QUERIES_C02
+
+
+# the rebuild of the head table (C18's queries) is also what C13 says about heads of an older database
+QUERIES["C13"] = QUERIES.get("C13", []) + [q_c18_heads_rebuild]
+# a failing request must not lose acknowledged writes (C14: "shutdown hands back a store containing every acknowledged write")
+QUERIES["C14"] = QUERIES.get("C14", []) + [q_c06_txn_glue]
